@@ -18,6 +18,7 @@ from guppylang_internals.error import GuppyError, GuppyTypeError
 from guppylang_internals.nodes import (
     AnyCall,
     BarrierExpr,
+    CheckedModifiedBlock,
     GlobalCall,
     LocalCall,
     PlaceNode,
@@ -111,6 +112,16 @@ class BBUnitaryChecker(ast.NodeVisitor):
     def visit_StateResultExpr(self, node: StateResultExpr) -> None:
         # StateResult is always allowed
         pass
+
+    def visit_CheckedModifiedBlock(self, node: CheckedModifiedBlock) -> None:
+        # The body is checked on its own under the combined flags. The arguments of the
+        # modifiers are evaluated in the enclosing context; they are not children of
+        # the node
+        for control in node.control:
+            for arg in control.ctrl:
+                self.visit(arg)
+        for power in node.power:
+            self.visit(power.iter)
 
     def _check_assign(self, node: ast.Assign | ast.AnnAssign | ast.AugAssign) -> None:
         if UnitaryFlags.Dagger in self.flags:
